@@ -77,8 +77,6 @@ def handler(case):
             if any(r["cb_open"][dist.name] for r in info if "cb_open" in r):
                 viols.append(("c14.mg-fault-trips-dist", f"only microgrid lines failed but the breaker of {dist.name} opened"))
     sig = (tuple(m.mode.name for m in mgs), auto, tuple(sorted({(tuple(sorted(k for k, o in r["cb_open"].items() if o)), len(r["failed"])) for r in steps}, key=str)))
-    if auto:
-        ops, impl = [], []
     return dict(ops=ops, impl=impl, viols=viols[:3], nontrivial=sig, tag=f"{'auto' if auto else 'manual'}:{mgs[0].mode.name if mgs else 'none'}")
 
 
